@@ -1,16 +1,9 @@
-(* C08 — proofs.  The lemmas live in four files (one per group of clauses); this file collects
-   them and adds the small glue lemmas used by Props.v. *)
-From Coq Require Import List ZArith NArith Bool Lia.
-From TM Require Import Common.Hex Generated.Consts C08.Model.
-Import ListNotations.
-Open Scope Z_scope.
-
-(* UpdateWithChangeSet as the caller sees it: the receiver after the call and the error *)
-Definition update_in_place (vs : valset) (cs : list validator) : valset * option upd_err :=
-  match update vs cs with Ok v => (v, None) | Err e => (vs, Some e) end.
-
-Lemma update_error_unchanged : forall vs cs,
-  snd (update_in_place vs cs) <> None -> fst (update_in_place vs cs) = vs.
-Proof.
-  intros vs cs. unfold update_in_place. destruct (update vs cs); cbn; [congruence | reflexivity].
-Qed.
+(* C08 — proofs.  The lemmas live in one file per group of clauses; this file only collects them:
+     PUpdate.v    update batches (order independence, invariants, finite-map refinement, acceptance)
+     PStore.v     historical lookup (LoadValidators after the F1 repair, checkpoints, prunes)
+     PRotation.v  priority arithmetic: window after rescale+centre, no saturation, = specification
+     PTurns.v     fairness of the weighted round-robin (accounting identity, exact periods, windows)
+     PChain.v     the bounds along every chain history
+   They are Required (not Imported): several define the same short names (addrs, sum_power, WF). *)
+From TM Require Export C08.Model.
+From TM Require C08.PUpdate C08.PStore C08.PRotation C08.PTurns C08.PChain.
